@@ -424,6 +424,8 @@ theorem execCore_guards : ∀ (o : Op) (m : M), GuardsKept m (execCore o m)
           | some m2 => have g := dropTop_guards hd; exact ⟨g.1.trans h.1, g.2.trans h.2⟩
         | err m1 => trivial
         | crash w m1 => trivial
+  | .spread n, m => by simp only [execCore]; exact ⟨rfl, rfl⟩
+  | .consume, m => by simp only [execCore]; exact ⟨rfl, rfl⟩
   | .verb v body, m => by
     simp only [execCore]
     have h := exec_guards body { m with lastVerb := v }
